@@ -19,7 +19,8 @@
 (* re-write of other slots from memory, which is the identity whenever live = stored.               *)
 (*                                                                                                 *)
 (* Named deviations (constant Deviations), each an alternative outcome of an assignment:            *)
-(*   ForgetsPersist         the setter never calls update_attribute: the file keeps the old value   *)
+(*   ForgetsPersist         the value is never written (no update_attribute call, or a call that    *)
+(*                          skips this attribute): the file keeps the old value                     *)
 (*   PersistsBeforeStoring  update_attribute is called before the backing field is changed: the     *)
 (*                          file receives the PREVIOUS live value                                   *)
 (*   ClobbersOther          the assignment re-writes another attribute b with the value the entity  *)
@@ -71,33 +72,35 @@ Lagging(a) == {s \in Slots \ {a} : live[s] # stored[s]}
 \* file content when slot a receives v and the slots in H are re-written from memory
 Persist(a, v, H) == [s \in Slots |-> IF s = a THEN v ELSE IF s \in H THEN live[s] ELSE stored[s]]
 
-\* a deviating outcome re-writes none or all of the lagging slots (the specified outcome: any subset)
-AllOrNone(S) == {{}, S}
 Outcomes(a, t) ==
     {[st |-> Persist(a, t, H), lv |-> t, dev |-> "", b |-> 0, heal |-> H] : H \in SUBSET Lagging(a)}
     \cup
     (IF "ForgetsPersist" \in Deviations /\ stored[a] # t
-     THEN {[st |-> stored, lv |-> t, dev |-> "ForgetsPersist", b |-> 0, heal |-> {}]} ELSE {})
+     \* the value of a is not written; the persistence call may be missing altogether (heal = {}) or be made and skip
+     \* a (attribute not in the attribute map, value None): then other slots are still re-written from memory
+     THEN {[st |-> Persist(a, stored[a], H), lv |-> t, dev |-> "ForgetsPersist", b |-> 0, heal |-> H] :
+              H \in SUBSET Lagging(a)}
+     ELSE {})
     \cup
     (IF "PersistsBeforeStoring" \in Deviations /\ live[a] # t
      THEN {[st |-> Persist(a, live[a], H), lv |-> t, dev |-> "PersistsBeforeStoring", b |-> 0, heal |-> H] :
-              H \in AllOrNone(Lagging(a))}
+              H \in SUBSET Lagging(a)}
      ELSE {})
     \cup
     (IF "ClobbersOther" \in Deviations
      THEN UNION {{[st |-> [Persist(a, t, H) EXCEPT ![b] = 0], lv |-> t, dev |-> "ClobbersOther", b |-> b, heal |-> H] :
-                     H \in AllOrNone(Lagging(a) \ {b})} :
+                     H \in SUBSET (Lagging(a) \ {b})} :
                  b \in {s \in Slots \ {a} : stored[s] # 0}}
      ELSE {})
     \cup
     (IF "DestroysStored" \in Deviations
      THEN {[st |-> Persist(a, Lost, H), lv |-> t, dev |-> "DestroysStored", b |-> 0, heal |-> H] :
-              H \in AllOrNone(Lagging(a))}
+              H \in SUBSET Lagging(a)}
      ELSE {})
     \cup
     (IF "StaleLive" \in Deviations /\ live[a] # t
      THEN {[st |-> Persist(a, t, H), lv |-> live[a], dev |-> "StaleLive", b |-> 0, heal |-> H] :
-              H \in AllOrNone(Lagging(a))}
+              H \in SUBSET Lagging(a)}
      ELSE {})
 
 Assign(act, a, t) ==
